@@ -70,3 +70,18 @@ add("C16", "exploration",
     "Internal consistency only (no game data offline); instruction output registers per pv/isa.py.",
     "exhaustive enumeration of finite tables with independent recomputation (CRC-32, ast parse) through compile_code",
     "DESIGN.md section 16")
+add("C08", "exploration",
+    "Compact and verbose outputs of the same source are mapped by an independent position-aware normaliser (own "
+    "CRC-32/STR packing, ast-parsed enum numbers, operand kinds per opcode) to numeric instruction sequences that must "
+    "be identical; all 643 enum members swept exhaustively, strings and structure classes generated.",
+    "Operand kinds per opcode are mine (pv/isa.py); strings without double quotes; STR <= 6 ASCII characters.",
+    "property-based metamorphic testing (Hypothesis) + exhaustive enum sweep: compact vs verbose normal form",
+    "DESIGN.md section 8")
+add("C03", "exploration",
+    "Metamorphic pair per expression: the folded program (literal operands) and its un-folded twin (the same operands "
+    "loaded from the stack) are both compiled and run on the reference machine; written values must agree. Operator "
+    "grid enumerated, expression trees generated.",
+    "Operands restricted to the range where IC10 semantics are unambiguous; reference ALU is mine; 1e-15 relative "
+    "tolerance for non-integers (16 significant digits are printed).",
+    "property-based metamorphic testing (Hypothesis + enumerated operator grid): folded vs un-folded twin on the IC10 reference machine",
+    "DESIGN.md section 3")
